@@ -29,6 +29,9 @@ for patch in sorted(glob.glob(os.path.join(HERE, "fixes", f"{pid}-*.patch"))):
         print("already applied:", name)
         continue
     r = run(["git", "-C", "/repo", "apply", "--check", patch])
+    if r.returncode and "--3way" not in sys.argv:
+        print("DOES NOT APPLY (no --3way):", name, r.stdout.strip()[:200])
+        continue
     if r.returncode:
         r3 = run(["git", "-C", "/repo", "apply", "--3way", patch])
         if r3.returncode:
